@@ -890,3 +890,8 @@ def binders_independent_of_initialiser(F, res, rule="S11"):
         res.ob(rule, "binders-lowered-without-initialiser/%d" % n, "the pattern of a let / use statement is lowered (its names bound for the following "
                "statements) on every path, not only when the right-hand side is an expression node", not bad, where=f.loc(t["ln"]),
                how="lowering of the pattern is conditional on %s being Some" % bad if bad else "no condition on the initialiser")
+
+
+def thorough(F, res):
+    from lib import shape as _sh
+    _sh.crosscheck(F, res)
